@@ -5,13 +5,14 @@ import (
 	"os"
 	"runtime/debug"
 	"runtime/pprof"
+	"strconv"
 
 	"verif/scen"
 )
 
 func main() {
 	// keep the heap in check: the explorer allocates a lot of short-lived application state
-	debug.SetGCPercent(50)
+	debug.SetGCPercent(gcPercent())
 	debug.SetMemoryLimit(24 << 30)
 	if len(os.Args) < 2 {
 		fmt.Fprintln(os.Stderr, "usage: vcheck run <id> <quick|thorough> | replay <file> | list")
@@ -54,4 +55,13 @@ func main() {
 	default:
 		os.Exit(2)
 	}
+}
+
+// gcPercent: the explorer allocates a lot of short-lived application state; a larger heap growth factor
+// trades memory (bounded by the limit above) for less collector work. VERIF_GOGC overrides.
+func gcPercent() int {
+	if n, err := strconv.Atoi(os.Getenv("VERIF_GOGC")); err == nil && n > 0 {
+		return n
+	}
+	return 200
 }
